@@ -305,7 +305,8 @@ def mass_block(L, m, d, a):
     return B
 
 
-def _entry_ok(L, m, T, qvel, bias, i, j, tol):
+def _entry(L, m, T, qvel, bias):
+    """(analytic qDeriv, FD reference) as dense matrices on twin T under the CURRENT model options (fd step 1e-5)"""
     T["qvel"][:] = qvel
     T.forward()
     L.call("mjd_smooth_vel", m, T, bias, ret=None)
@@ -315,19 +316,38 @@ def _entry_ok(L, m, T, qvel, bias, i, j, tol):
     if not bias:
         for _, a0 in free_blocks(m):
             Fx[a0:a0 + 6, a0:a0 + 6] = Fn[a0:a0 + 6, a0:a0 + 6]
-    return abs(Dx[i, j] - Fx[i, j]) <= min(tol[i, j], 0.05 * _entry_ok.base) + 1e-9 * abs(Fx[i, j])
+    return Dx, Fx
 
 
-_entry_ok.base = np.inf
+def _closed(Dx, Fx, i, j, tol, base):
+    """the mismatch of entry (i,j) is gone: more than 95 % of the original error `base` removed and within tolerance"""
+    return abs(Dx[i, j] - Fx[i, j]) <= min(tol[i, j], 0.05 * base) + 1e-9 * abs(Fx[i, j])
 
 
-def drag_guard_active(L, m, d):
-    """True if for some ellipsoid-fluid geom sqrt(proj_num^3 * proj_denom) of mjd_viscous_drag is below mjMINVAL, i.e. the
-    guard of the projected-area derivative dominates (semi-axes of a few cm at moderate speed)."""
+def _moves_with(m, body, dof):
+    """body is the dof's body or one of its descendants"""
+    par_, db = m["body_parentid"], int(m["dof_bodyid"][dof])
+    b = int(body)
+    while b > 0:
+        if b == db:
+            return True
+        b = int(par_[b])
+    return False
+
+
+def drag_guard_geoms(L, m, d, i, j):
+    """ellipsoid-fluid geoms on bodies that move with dof i AND dof j for which sqrt(proj_num^3 * proj_denom) of mjd_viscous_drag is
+    below mjMINVAL, i.e. the absolute guard of the projected-area derivative dominates (semi-axes of a few cm at moderate speed)"""
     ng = m.n("ngeom")
     G = m["geom_fluid"].reshape(ng, -1)
+    out = []
+    if not m.opt["density"] > 0:
+        return out
     for g in range(ng):
         if G[g, 0] <= 0:
+            continue
+        gb = int(m["geom_bodyid"][g])
+        if not (_moves_with(m, gb, i) and _moves_with(m, gb, j)):
             continue
         s = np.zeros(3)
         L.call("mju_geomSemiAxes", s, np.ascontiguousarray(m["geom_size"][g]), int(m["geom_type"][g]), ret=None)
@@ -338,62 +358,124 @@ def drag_guard_active(L, m, d):
         a, b, c = (s[1] * s[2]) ** 2, (s[2] * s[0]) ** 2, (s[0] * s[1]) ** 2
         num = a * v[0] ** 2 + b * v[1] ** 2 + c * v[2] ** 2
         den = a * a * v[0] ** 2 + b * b * v[1] ** 2 + c * c * v[2] ** 2
-        if np.sqrt(num ** 3 * den) < float(E.mjMINVAL) and (m.opt["density"] > 0):
-            return True
-    return False
+        if np.sqrt(num ** 3 * den) < float(E.mjMINVAL):
+            out.append(g)
+    return out
+
+
+def drag_guard_confirmed(L, m, d, T, qvel, bias, i, j, tol, base):
+    """mechanism confirmation for '...ellipsoid-drag-area-derivative-clamped-by-mjMINVAL-guard' (audit B2: the former model-wide
+    predicate relabelled every fluid-family mismatch of a model that merely contains one small slow geom). Requires (a) a
+    guard-active ellipsoid geom on a body that moves with dof i and dof j, and (b) a term-removal counterfactual: with blunt drag
+    coefficient := slender drag coefficient on exactly those geoms, Aproj_coef = density*|v|*(blunt - slender) = 0 removes the
+    projected-area derivative term from mjd_viscous_drag AND the projected-area dependence from the drag force (quad_coef becomes
+    density*coef*A_max), everything else (Kutta, Magnus, added mass, viscous torque, inertia-box geoms, the other geoms) unchanged;
+    the signature is used only if that closes the gap of this entry."""
+    geoms = drag_guard_geoms(L, m, d, i, j)
+    if not geoms:
+        return False
+    G = m["geom_fluid"].reshape(m.n("ngeom"), -1)
+    saved = G[geoms, 1].copy()
+    try:
+        G[geoms, 1] = G[geoms, 2]
+        Dx, Fx = _entry(L, m, T, qvel, bias)
+        return bool(_closed(Dx, Fx, i, j, tol, base))
+    finally:
+        G[geoms, 1] = saved
+
+
+def actfrc_clamp_confirmed(L, m, d, T, qvel, bias, i, j, tol, err_signed):
+    """mechanism confirmation for '...joint-actuatorfrcrange-clamp-ignored' (audit B2: for the symmetrised implicitfast entry a
+    saturated column used to absorb an error originating in an unsaturated row). A = analytic actuator part of qDeriv (with minus
+    without mjDSBL_ACTUATION, current other options). A row k is saturated if its scalar joint is jnt_actfrclimited and
+    qfrc_actuator[k] sits on a bound: the true derivative of that row is 0 while the engine keeps A[k,:]. Predicted mismatch of entry
+    (i,j): implicit A[i,j] if row i saturated; implicitfast (FD symmetrised) A[i,j] - 0.5*(u_i A[i,j] + u_j A[j,i]) with u_k = 0 for a
+    saturated row, 1 otherwise. The signature is used only if the observed signed mismatch equals that prediction (5 % + tolerance)."""
+    def sat(k):
+        jn = int(m["dof_jntid"][k])
+        if not m["jnt_actfrclimited"][jn] or int(m["jnt_type"][jn]) not in (int(E.mjJNT_HINGE), int(E.mjJNT_SLIDE)):
+            return False
+        r = m["jnt_actfrcrange"][jn]
+        q = float(d["qfrc_actuator"][k])
+        return q <= r[0] or q >= r[1]
+    si, sj = sat(i), sat(j)
+    if not (si or (sj and not bias)):
+        return False
+    dis = int(m.opt["disableflags"])
+    try:
+        T["qvel"][:] = qvel
+        T.forward()
+        L.call("mjd_smooth_vel", m, T, bias, ret=None)
+        D1, _ = dense_D(m, T["qDeriv"].copy())
+        m.opt["disableflags"] = dis | E.mjDSBL_ACTUATION
+        T.forward()
+        L.call("mjd_smooth_vel", m, T, bias, ret=None)
+        D0, _ = dense_D(m, T["qDeriv"].copy())
+    finally:
+        m.opt["disableflags"] = dis
+    A = D1 - D0
+    if bias:
+        pred = A[i, j] if si else 0.0
+    else:
+        pred = A[i, j] - 0.5 * ((0.0 if si else 1.0) * A[i, j] + (0.0 if sj else 1.0) * A[j, i])
+    return bool(pred != 0 and abs(err_signed - pred) <= 0.05 * abs(err_signed) + tol[i, j])
 
 
 def diagnose(L, m, d, T, qvel, bias, i, j, F2, Dan, tol):
-    """name the force family responsible for a mismatch by switching families off on the twin (attribution only)."""
+    """name the force family responsible for a mismatch by switching families off on the twin, and - only after a confirmation of
+    the specific mechanism on this entry (counterfactual / predicted-value test) - the known mechanism inside the family; without
+    confirmation the plain family name is returned (its signature is not a known finding)"""
     dis0 = int(m.opt["disableflags"])
     rho, mu = float(m.opt["density"]), float(m.opt["viscosity"])
     out = "unattributed"
-    _entry_ok.base = abs(Dan[i, j] - F2[i, j])       # a family is responsible if switching it off removes >95% of the error
+    base = abs(Dan[i, j] - F2[i, j])       # a family is responsible if switching it off removes >95% of the error
+    GUARD = ":ellipsoid-drag-area-derivative-clamped-by-mjMINVAL-guard"
+    CLAMP = ":joint-actuatorfrcrange-clamp-ignored"
+
+    def fluid(on):
+        m.opt["density"], m.opt["viscosity"] = (rho, mu) if on else (0.0, 0.0)
+
     try:
-        m.opt["density"], m.opt["viscosity"] = 0.0, 0.0
-        if (rho > 0 or mu > 0) and _entry_ok(L, m, T, qvel, bias, i, j, tol):
+        fluid(False)
+        if (rho > 0 or mu > 0) and _closed(*_entry(L, m, T, qvel, bias), i, j, tol, base):
             out = "fluid-term"
-            m.opt["density"], m.opt["viscosity"] = rho, mu
-            if drag_guard_active(L, m, d):
-                out = "fluid-term:ellipsoid-drag-area-derivative-clamped-by-mjMINVAL-guard"
+            fluid(True)
+            if drag_guard_confirmed(L, m, d, T, qvel, bias, i, j, tol, base):
+                out += GUARD
         else:
-            m.opt["density"], m.opt["viscosity"] = rho, mu
+            fluid(True)
             m.opt["disableflags"] = dis0 | E.mjDSBL_ACTUATION
-            if _entry_ok(L, m, T, qvel, bias, i, j, tol):
+            if _closed(*_entry(L, m, T, qvel, bias), i, j, tol, base):
                 out = "actuator-term"
-                for k in ((i,) if bias else (i, j)):       # the symmetrised entry mixes row i and row j
-                    jn = int(m["dof_jntid"][k])
-                    if m["jnt_actfrclimited"][jn]:
-                        r = m["jnt_actfrcrange"][jn]
-                        q = float(d["qfrc_actuator"][k])
-                        if q <= r[0] or q >= r[1]:
-                            out = "actuator-term:joint-actuatorfrcrange-clamp-ignored"
+                m.opt["disableflags"] = dis0
+                if actfrc_clamp_confirmed(L, m, d, T, qvel, bias, i, j, tol, float(Dan[i, j] - F2[i, j])):
+                    out += CLAMP
             else:
                 m.opt["disableflags"] = dis0 | E.mjDSBL_DAMPER
-                if _entry_ok(L, m, T, qvel, bias, i, j, tol):
+                if _closed(*_entry(L, m, T, qvel, bias), i, j, tol, base):
                     out = "damper-term"
                 else:
                     out = "bias-or-other-term"
-                    # two families at once? (each is then named on its own)
+                    # two families at once? (each is then named on its own, each mechanism confirmed with the other family off)
                     m.opt["disableflags"] = dis0 | E.mjDSBL_ACTUATION
-                    m.opt["density"], m.opt["viscosity"] = 0.0, 0.0
-                    if (rho > 0 or mu > 0) and _entry_ok(L, m, T, qvel, bias, i, j, tol):
-                        m.opt["density"], m.opt["viscosity"] = rho, mu
-                        fl = "fluid-term" + (":ellipsoid-drag-area-derivative-clamped-by-mjMINVAL-guard" if drag_guard_active(L, m, d) else "")
-                        ac = "actuator-term"
-                        for k in ((i,) if bias else (i, j)):
-                            jn = int(m["dof_jntid"][k])
-                            if m["jnt_actfrclimited"][jn]:
-                                r = m["jnt_actfrcrange"][jn]
-                                q = float(d["qfrc_actuator"][k])
-                                if q <= r[0] or q >= r[1]:
-                                    ac = "actuator-term:joint-actuatorfrcrange-clamp-ignored"
+                    fluid(False)
+                    if (rho > 0 or mu > 0) and _closed(*_entry(L, m, T, qvel, bias), i, j, tol, base):
+                        fl, ac = "fluid-term", "actuator-term"
+                        fluid(True)                                     # actuation off, fluid on: the fluid share of the error
+                        Dx, Fx = _entry(L, m, T, qvel, bias)
+                        if drag_guard_confirmed(L, m, d, T, qvel, bias, i, j, tol, abs(Dx[i, j] - Fx[i, j])):
+                            fl += GUARD
+                        m.opt["disableflags"] = dis0                    # fluid off, actuation on: the actuator share
+                        fluid(False)
+                        Dx, Fx = _entry(L, m, T, qvel, bias)
+                        if actfrc_clamp_confirmed(L, m, d, T, qvel, bias, i, j, tol, float(Dx[i, j] - Fx[i, j])):
+                            ac += CLAMP
                         out = fl + "|" + ac
     except drv.MjError:
         pass
     finally:
         m.opt["disableflags"] = dis0
-        m.opt["density"], m.opt["viscosity"] = rho, mu
+        fluid(True)
         T["qvel"][:] = qvel
         T.forward()
     return out
@@ -462,15 +544,18 @@ def twin_transition(L, m, T, s0, eps, centered):
     return A, B, Cm, Dm, float(np.max(np.abs(y0))) if len(y0) else 0.0, float(np.max(np.abs(z0))) if ns else 0.0
 
 
-def skipstage_column(L, m, T, s0, eps, centered, name, i):
-    """diagnostic only: the same column formed with mj_stepSkip(mjSTAGE_VEL) after an unperturbed step, i.e. with the
-    factorisation of M - h*qDeriv left over from the unperturbed controls/activations."""
+def skipstage_column(L, m, T, s0, eps, centered, name, i, stage=None):
+    """diagnostic only: the same column formed with mj_stepSkip(stage) after an unperturbed step. stage = mjSTAGE_VEL (default, what
+    mjd_transitionFD does for ctrl/act columns): mj_implicitSkip runs with skipfactor = 1, i.e. with the factorisation of M - h*qDeriv
+    left over from the unperturbed controls/activations. stage = mjSTAGE_POS: the same skipping of the position stage (valid for a
+    ctrl/act nudge) but skipfactor = 0 (the velocity stage that is additionally recomputed does not depend on ctrl/act)."""
+    stage = int(E.mjSTAGE_VEL) if stage is None else int(stage)
     try:
         def run(sgn):
             T.set_state(s0, INT)
             if sgn:
                 T[name][i] += sgn * eps
-            L.call("mj_stepSkip", m, T, int(E.mjSTAGE_VEL if sgn else E.mjSTAGE_NONE), 1, ret=None)
+            L.call("mj_stepSkip", m, T, int(stage if sgn else E.mjSTAGE_NONE), 1, ret=None)
             return phys(m, T)
         y0 = run(0)
         yp = run(1)
@@ -587,8 +672,14 @@ def check_transition(L, m, P, c, wit, rng, si):
                     P.violation("mjd_transitionFD:D-has-opposite-sign-with-centred-differences", dd)
                     continue
                 if nm in ("A", "B") and blk in ("a", "u") and int(m.opt["integrator"]) in (E.mjINT_IMPLICIT, E.mjINT_IMPLICITFAST):
-                    col = skipstage_column(L, m, T, s_full, eps, centered, "act" if blk == "a" else "ctrl", j - 2 * nv if blk == "a" else j)
-                    if col is not None and np.all(np.abs(col - got[:, j]) <= tol):
+                    # mechanism confirmation: (1) the engine's column is reproduced by mj_stepSkip(mjSTAGE_VEL) (stale factorisation),
+                    # and (2) counterfactual: the same skip of the position stage with a fresh factorisation, mj_stepSkip(mjSTAGE_POS),
+                    # reproduces the twin's column - so the mismatch is due to skipfactor alone, not to anything else on the skip path
+                    arr, k = ("act", j - 2 * nv) if blk == "a" else ("ctrl", j)
+                    col = skipstage_column(L, m, T, s_full, eps, centered, arr, k)
+                    colp = skipstage_column(L, m, T, s_full, eps, centered, arr, k, stage=E.mjSTAGE_POS)
+                    if col is not None and colp is not None and np.all(np.abs(col - got[:, j]) <= tol) and np.all(np.abs(colp - want[:, j]) <= tol):
+                        P.count("stale_factorization_confirmed")
                         P.violation("mjd_transitionFD:ctrl/act-columns-reuse-stale-implicit-factorization(M-hD-depends-on-ctrl/act)", dd)
                         continue
                 P.violation("mjd_transitionFD:%s-differs-from-perturbed-mj_step:d/d%s" % (nm, blk), dd)
